@@ -384,6 +384,14 @@ def make_F(cls, rng):
         return F, None
     if cls == "polar":
         Q, R = _rot(rng), _rot(rng)
+        kind = int(rng.integers(0, 3))
+        if kind == 0:
+            # NEAR-SPECIAL: a generic stretch times a rigid rotation of 1e-5 .. 1e-8 rad - not symmetric, but far closer
+            # to a symmetric matrix than any random draw (the laws hold to rounding, not to the size of the rotation)
+            w = rng.normal(size=3)
+            w = w / np.linalg.norm(w) * (1e-5, 1e-6, 1e-7, 1e-8)[int(rng.integers(0, 4))]
+            W = np.array([[0, -w[2], w[1]], [w[2], 0, -w[0]], [-w[1], w[0], 0]])
+            R = np.eye(3) + W + W @ W / 2
         return Q @ np.diag(np.exp(0.7 * rng.normal(size=3))) @ Q.T @ R, None
     if cls == "oblique_shear":
         Q = _rot(rng)
